@@ -142,6 +142,59 @@ def one_table(rng, tier, res, idx):
     return fails
 
 
+def range_compare_cases(rng, n):
+    """cases for the Range.Update / Value.Compare* correspondence (harness/c06range.go vs the extracted Model/Query.v)"""
+    import struct
+    def fb(x):
+        return struct.unpack("<I", struct.pack("<f", x))[0]
+    ints = [0, 1, -1, 5, 7, 2**31 - 1, -2**31, 2**31 - 2, -2**31 + 1, 100]
+    flts = [fb(x) for x in (0.0, -0.0, 1.5, -1.5, 3.4028234663852886e38, -3.4028234663852886e38, float("inf"), float("-inf"), 1e-40, 2.0)] + [0x7fc00000]
+    strs = [b"", b"a", b"ab", b"S", b"T", b"SamehadaDBInfMaxValue", b"SamehadaDBInfMinValue", b"SamehadaDBInfMaxValue!", b"SamehadaDBInfMa", b"z", b"A"]
+    def val(ty, allow_null=True):
+        if allow_null and rng.random() < 0.05:
+            return "n"
+        if ty == "i":
+            return "i:%d" % (rng.choice(ints) if rng.random() < 0.7 else rng.randrange(-2**31, 2**31))
+        if ty == "f":
+            return "f:%d" % (rng.choice(flts) if rng.random() < 0.7 else rng.randrange(0, 2**32))
+        v = rng.choice(strs)
+        return "s:" + (v.hex() if v else "-")
+    out = []
+    for _ in range(n):
+        ty = rng.choice("ifs")
+        if rng.random() < 0.5:
+            items = ["%s,%s,%s" % (rng.choice(["eq", "ne", "gt", "ge", "lt", "le"]), val(ty, False), rng.choice("RL")) for _ in range(rng.randrange(1, 7))]
+            out.append("R %s %s" % (ty, " ".join(items)))
+        else:
+            out.append("C %s %s %s" % (ty, val(ty), val(ty)))
+    return out
+
+
+def known_probes(res):
+    """replay the witnesses of the listed known findings; print KNOWN-FINDING while they still fail"""
+    db = DB()
+    try:
+        if not db.open().startswith("ok"):
+            return
+        db.sql("CREATE TABLE p(id int, name varchar(255));")
+        for i, n in enumerate(["alice", "Bob", "Tom", "Sz", "SamehadaDBInfMaxValue"]):
+            db.sql("INSERT INTO p(id,name) VALUES (%d, '%s');" % (i + 1, n))
+        got = canon_rows(db.sql("SELECT id FROM p WHERE name < 'SamehadaDBInfMaxValue' OR name < 'SamehadaDBInfMaxValue';"))
+        if got != "ok:i:2":
+            res.known_hits["F-SENTINEL"] = ("comparison with a value equal to a 'no bound' marker (here the string 'SamehadaDBInfMaxValue') treats it as infinity: "
+                                            "SELECT id FROM p WHERE name < 'SamehadaDBInfMaxValue' returns %s, reference i:2" % got)
+        db.cmd("mktable q a:i:s,b:i:n")
+        db.cmd("rawinsert q n i:1")
+        db.cmd("rawinsert q i:5 i:2")
+        db.cmd("stats")
+        got = db.sql("SELECT b FROM q WHERE a = 0;")
+        if got != "ok:":
+            res.known_hits["F-NULL-KEY"] = ("a NULL in an indexed column is indexed under the type's zero value; an index scan that reaches it aborts the statement: "
+                                            "SELECT b FROM q WHERE a = 0 answers %s, reference: no rows" % got[:60])
+    finally:
+        db.destroy()
+
+
 def run(res, replay=None):
     res.rule = ("random schemas of 1-5 columns over int/float/varchar, created by SQL CREATE TABLE (skip-list index on every column) or through the catalog API "
                 "(no index / skip list / B-tree per column); 0-400 rows incl. duplicates, NULLs, boundary values and values stored through the plan-level API; "
@@ -156,6 +209,22 @@ def run(res, replay=None):
     if not go_ok:
         return
     rng = random.Random(res.seed)
+    # (a) Range.Update / Compare* : extracted model vs the real functions
+    rc_cases = range_compare_cases(rng, 4000 if res.tier == "quick" else 60000)
+    text = "\n".join(rc_cases) + "\n"
+    rc1, out1 = run_harness("c06range", text)
+    rc2, out2 = run_model("c06range_driver", text)
+    a, b = out1.split("\n")[:-1], out2.split("\n")[:-1]
+    if rc1 != 0 or rc2 != 0 or len(a) != len(rc_cases) or len(b) != len(rc_cases):
+        res.broken.append("range/compare correspondence could not run (rc %d/%d, %d/%d lines)" % (rc1, rc2, len(a), len(b)))
+    else:
+        for c, x, y in zip(rc_cases, a, b):
+            res.note_case(c, c[0] == "R" and c.count(",") >= 6)
+            if x != y and len(res.mismatches) < 10:
+                res.mismatches.append((c, "Range/Compare: implementation %s | model %s" % (x, y)))
+    res.extra["range_compare_cases"] = len(rc_cases)
+    # (b) the listed known findings are replayed
+    known_probes(res)
     ntab = 60 if res.tier == "quick" else 600
     for i in range(ntab):
         for d, w in one_table(rng, res.tier, res, i):
